@@ -236,6 +236,14 @@ func mapField(
 			}).Lift(lift...)
 		}
 		sourceMatch, err := xtype.FindExactField(nextSource, path[i])
+		if err == nil && !xtype.Accessible(sourceMatch.Obj, ctx.OutputPackagePath) {
+			cause := fmt.Sprintf("Cannot read the unexported source field or method %q from the output package.\n\nSee https://goverter.jmattheis.de/guide/unexported-field", sourceMatch.Name)
+			return nil, nil, nil, nil, false, NewError(cause).Lift(&Path{
+				Prefix:     ".",
+				SourceID:   path[i],
+				SourceType: "???",
+			}).Lift(lift...)
+		}
 		if err == nil {
 			nextSource = sourceMatch.Type
 			nextIDCode = nextIDCode.Clone().Dot(sourceMatch.Name)
